@@ -275,9 +275,9 @@ func (in *Interp) intrinsic(fr *frame, fn *ssa.Function, args []Value, pos token
 		return a, true
 	case "go.mongodb.org/mongo-driver/bson/primitive.NewDateTimeFromTime":
 		// time values are Struct{ms}: see timeCall
-		return args[0].(Struct)[0], true
+		return args[0].(Struct)[1], true
 	case "(go.mongodb.org/mongo-driver/bson/primitive.DateTime).Time":
-		return Struct{args[0]}, true
+		return Struct{BVc(64, 0), args[0], NilPtr{}}, true
 	case "errors.Is":
 		a, b := in.force(args[0]), in.force(args[1])
 		return in.ifaceEq(a, b, pos), true
